@@ -563,6 +563,14 @@ impl TransactionalMemory {
                 ))
                 .into());
             }
+            // A file that carries the magic number but is too short to hold the header is not a
+            // database: reject it here instead of reading the header past the end of the storage
+            if initial_storage_len < DB_HEADER_SIZE as u64 {
+                return Err(StorageError::Corrupted(format!(
+                    "Database file is {initial_storage_len} bytes long, shorter than its {DB_HEADER_SIZE} byte header"
+                ))
+                .into());
+            }
         } else {
             // File is empty, check that we're allowed to initialize a new database (i.e. the caller is Database::create() and not open())
             if !allow_initialize {
